@@ -279,6 +279,38 @@ func runC18(c *Ctx) {
 	for _, r := range succ {
 		skip := anyFact(factEqString(optField("CA"), "", true), factNil(optField("LoadedCA"), false))
 		appends := isCallInstrTo("(*crypto/x509.CertPool).AppendCertsFromPEM")
+		// the in-memory CA certificate likewise: given, it is added — whatever the base pool already holds (a pool that
+		// carries another certificate of the same subject does not stand in for it)
+		{
+			adds := func(in ssa.Instruction) bool {
+				if !isCallInstrTo("(*crypto/x509.CertPool).AddCert")(in) {
+					return false
+				}
+				_, a := callArgs(in.(ssa.CallInstruction).Common())
+				return len(a) == 1 && optField("LoadedCA")(a[0])
+			}
+			addsVia := func(in ssa.Instruction) bool {
+				call, ok := in.(*ssa.Call)
+				if !ok || call.Call.IsInvoke() {
+					return false
+				}
+				if _, isPhi := call.Call.Value.(*ssa.Phi); !isPhi {
+					return false
+				}
+				for _, og := range originsOf(call.Call.Value) {
+					if mc, isMC := og.V.(*ssa.MakeClosure); isMC {
+						for _, ci := range instrs(mc.Fn.(*ssa.Function)) {
+							if isCallInstrTo("(*crypto/x509.CertPool).AddCert")(ci) {
+								return true
+							}
+						}
+					}
+				}
+				return false
+			}
+			missCA := pathExists(f, nil, r, factNil(optField("LoadedCA"), true), func(in ssa.Instruction) bool { return adds(in) || addsVia(in) })
+			c.obI("R18.4", r, "LoadedCA-always-added", !missCA, "every success path with opts.LoadedCA set adds that certificate to the root pool, unconditionally", "a success path with an in-memory CA certificate given does not add it to the pool")
+		}
 		// (or a call of a locally selected closure, one of whose candidates appends the file)
 		viaClosure := func(in ssa.Instruction) bool {
 			call, ok := in.(*ssa.Call)
